@@ -175,6 +175,7 @@ def run(ctx):
     from rules import c12
     S_T, S_I = S.TEMPLATES, S.INLINE
     c12.scalar_primitives(ctx, "C11.R6", core)
+    c12.structural_equality(ctx, "C11.R6", core)
     S.TEMPLATES, S.INLINE = S_T, S_I
     ctx.rule("C11.R7", "prefix minus is the IEEE negation of the operand (never `0 - x`), not / ! negate the operand's boolean", floor=3)
     unary_rule(ctx, "C11.R7", core)
